@@ -220,9 +220,51 @@ def reject_worker(ctx, job):
     return res
 
 
+def faultcrash_worker(ctx, job):
+    """One injected failure plus a crash: the publishing rename (or the directory creation before it) fails with an
+    errno, and the process is then killed at every later system call, with every later write torn. Whatever error
+    handling follows a failed publication must not build the file in place under its address."""
+    res = V.new()
+    sc = job["sc"]
+    cache = ctx.path("c03-cache")
+    init_snap = build_init(ctx, sc, cache)
+    base = setup_exec(ctx, sc, cache, init_snap)
+    rep = fsx.run(base, ctx.dir)
+    steps = [s for s in rep["steps"] if s.get("step") is not None]
+    targets = [(i, s["sys"]) for i, s in enumerate(steps) if s["sys"] in ("rename", "renameat", "renameat2")]
+    for (r, sysname) in targets:
+        for errno_ in (18, 5, 28):   # EXDEV, EIO, ENOSPC
+            fault = [{"step": r, "errno": errno_}]
+            spec = setup_exec(ctx, sc, cache, init_snap)
+            spec["faults"] = fault
+            rep = fsx.run(spec, ctx.dir)
+            res["evals"] += 1
+            fsteps = [s for s in rep["steps"] if s.get("step") is not None]
+            replay = {"engine": "fsx", "mode": "fault+crash", "scenario": sc, "faults": fault, "crash": None}
+            content_check(ctx, res, fsutil.snapshot(cache), sc, "after a failed publication (errno %d)" % errno_, replay)
+            cps = [c for c in crash_points([{"sys": s["sys"], "len": s["len"]} for s in fsteps]) if c["step"] > r]
+            for cp in cps:
+                spec = setup_exec(ctx, sc, cache, init_snap)
+                spec["faults"] = fault
+                spec["crash"] = cp
+                rep = fsx.run(spec, ctx.dir)
+                res["evals"] += 1
+                res["distinct"].add(V.h("faultcrash", sc["id"], errno_, cp["step"], cp["tear"]))
+                V.outcome(res, "fault+crash")
+                replay = {"engine": "fsx", "mode": "fault+crash", "scenario": sc, "faults": fault, "crash": cp}
+                snap = fsutil.snapshot(cache)
+                if content_check(ctx, res, snap, sc, "rename failed with errno %d, then kill at step %s tear %s" % (errno_, cp["step"], cp["tear"]), replay):
+                    reads_check(ctx, res, cache, sc, replay)
+    fsutil.wipe(cache)
+    res["samples"].append({"kind": "fault+crash", "scenario": {k: sc[k] for k in ("entry", "flavour", "n", "init")}, "rename_steps": targets})
+    return res
+
+
 def worker(ctx, job):
     if job["kind"] == "reject":
         return reject_worker(ctx, job)
+    if job["kind"] == "faultcrash":
+        return faultcrash_worker(ctx, job)
     res = V.new()
     sc = job["sc"]
     cache = ctx.path("c03-cache")
@@ -299,6 +341,8 @@ def main(tier, seed=0):
                 jobs.append({"kind": "crash", "sc": pr["sc"], "crashes": cps[i:i + chunk]})
         jobs.sort(key=lambda j: (j["sc"]["init"], j["sc"]["n"], j["sc"]["algo"], j["sc"]["id"]))
         jobs = [{"kind": "reject", "flavour": f, "side": sd} for f, sd in (("sync", "s"), ("astd", "a"), ("tok", "a"), ("astd", "s"))] + jobs
+        fc = [sc for sc in scs if sc["init"] == "cold" and sc["n"] in (5, 4097) and (tier != "quick" or sc["entry"] in ("write_sync", "sw_declared", "write", "aw_plain"))]
+        jobs = [{"kind": "faultcrash", "sc": sc} for sc in fc] + jobs
         for r in pool.imap_unordered(R._work, jobs, chunksize=1):
             if "machinery_error" in r:
                 merr.append(r["machinery_error"])
